@@ -1,7 +1,336 @@
-import KG.Spec.Validate
-namespace KG.Props.C16
-open KG KG.Model.Validate KG.Spec.Validate
+import KG.Lemmas.Validate
+/-!
+# C16 — admission validation is total, and what it accepts the data plane can apply
 
-theorem placeholder : toU32 0 = 0 := by decide
+Statement (properties.jsonl): validating any UpstreamCluster object terminates with a list of field errors and never
+panics; every object that passes validation can be applied by the gateway and by the limiter server without error or
+panic; objects that would break them (unparseable endpoint URLs, mixed schemes, unusable key / certificate / CA data,
+policies referring to unknown endpoints or schemas, contradictory, incomplete or out-of-range flow-control
+configurations) are rejected.
+
+Everything is quantified over every object AND over every behaviour of the external parsers (`Env`: `url.Parse`,
+`tls.X509KeyPair`, `cert.ParseCertsPEM`, `featuregate.Set`, `rest.DefaultServerURL`, `strings.ToLower`, the element
+`PopAny` returns). Sufficiency additionally assumes `EnvOK env` (Spec): `url.Parse` reports the scheme the prefix test
+saw, client-go accepts as host every URL that parses with scheme and host, `ToLower` is idempotent. Validator and
+consumer call the same `env` (the same parser on the same bytes).
+-/
+namespace KG.Props.C16
+open KG KG.Model.Validate KG.Spec.Validate KG.Lemmas.Validate
+
+/-! ## Totality -/
+
+/-- `Validate` (plugin; `ValidateUpstreamCluster` inside) returns a list of field errors for every object, every
+    lister content and every behaviour of the parsers: it never panics (nor fails otherwise). -/
+theorem c16_total (env : Env) (known : List Known) (c : Cluster) : ∃ errs, validate env known c = .ok errs :=
+  validate_total env known c
+
+theorem c16_never_panics (env : Env) (known : List Known) (c : Cluster) : isPanic (validate env known c) = false := by
+  obtain ⟨e, he⟩ := c16_total env known c
+  simp [he, isPanic]
+
+/-- the same for `ValidateUpstreamCluster` alone -/
+theorem c16_core_total (env : Env) (c : Cluster) : ∃ errs, validateUpstreamCluster env c = .ok errs := by
+  obtain ⟨e, he⟩ := c16_total env [] c
+  unfold validate at he
+  cases h : validateUpstreamCluster env c with
+  | ok l => exact ⟨l, rfl⟩
+  | error x => simp [h, bind, Except.bind] at he
+
+/-! ## What is accepted: exactly the declaratively valid objects -/
+
+/-- the validation accepts (empty error list) exactly the objects that are `valid` by the declarative spec -/
+theorem c16_accepts_iff_valid (env : Env) (known : List Known) (c : Cluster) :
+    validate env known c = .ok [] ↔ valid env known c = true :=
+  validate_ok_iff_valid env known c
+
+/-- in particular every accepted object is `usable`: it is in none of the classes the property lists -/
+theorem c16_accepted_usable (env : Env) (known : List Known) (c : Cluster) (h : validate env known c = .ok []) :
+    usable env c = true := by
+  have hv := (c16_accepts_iff_valid env known c).mp h
+  simp only [valid, Bool.and_eq_true] at hv
+  exact hv.1.1.1.1.2
+
+/-! ## Rejection, class by class -/
+
+private theorem classes_of_accepted (env : Env) (known : List Known) (c : Cluster) (h : validate env known c = .ok []) :
+    (c.servers ≠ [] ∧ ∀ s ∈ c.servers, endpointOK env s.endpoint = true) ∧ sameScheme c.servers = true ∧
+    clientTLSOK env (schemeOf c.servers) c.clientConfig = true ∧ servingOK env c.secureServing = true ∧
+    (∀ s ∈ c.schemas, schemaOK s = true) ∧ namesOK c.schemas = true ∧
+    (∀ p ∈ c.policies, policyRefsOK c.servers c.schemas p = true) := by
+  have hu := c16_accepted_usable env known c h
+  simp only [usable, classes, Bool.and_eq_true, decide_eq_true_eq, List.all_eq_true] at hu
+  obtain ⟨⟨⟨⟨⟨⟨⟨a, b⟩, c'⟩, d⟩, e⟩, f⟩, g⟩, i⟩ := hu
+  exact ⟨⟨a, b⟩, c', d, e, f, g, i⟩
+
+/-- no servers -/
+theorem c16_rejects_no_server (env : Env) (known : List Known) (c : Cluster) (h : c.servers = []) :
+    validate env known c ≠ .ok [] := fun hv => (classes_of_accepted env known c hv).1.1 h
+
+/-- an endpoint without `http://` / `https://` prefix -/
+theorem c16_rejects_endpoint_without_scheme (env : Env) (known : List Known) (c : Cluster) (s : Server)
+    (hs : s ∈ c.servers) (h : getURLScheme s.endpoint = []) : validate env known c ≠ .ok [] := by
+  intro hv
+  have := (classes_of_accepted env known c hv).1.2 s hs
+  simp [endpointOK, h] at this
+
+/-- an endpoint `url.Parse` refuses (`https://%zz`, `http://[::1`, ...) -/
+theorem c16_rejects_unparseable_endpoint (env : Env) (known : List Known) (c : Cluster) (s : Server)
+    (hs : s ∈ c.servers) (h : env.urlParse s.endpoint = none) : validate env known c ≠ .ok [] := by
+  intro hv
+  have := (classes_of_accepted env known c hv).1.2 s hs
+  simp [endpointOK, h] at this
+
+/-- an endpoint without host (`https://`, `https:///path`) -/
+theorem c16_rejects_endpoint_without_host (env : Env) (known : List Known) (c : Cluster) (s : Server) (u : URL)
+    (hs : s ∈ c.servers) (h : env.urlParse s.endpoint = some u) (hh : u.host = []) : validate env known c ≠ .ok [] := by
+  intro hv
+  have := (classes_of_accepted env known c hv).1.2 s hs
+  simp [endpointOK, h, hh] at this
+
+/-- mixed schemes -/
+theorem c16_rejects_mixed_schemes (env : Env) (known : List Known) (c : Cluster) (a b : Server)
+    (ha : a ∈ c.servers) (hb : b ∈ c.servers) (h : getURLScheme a.endpoint ≠ getURLScheme b.endpoint) :
+    validate env known c ≠ .ok [] := by
+  intro hv
+  have := (classes_of_accepted env known c hv).2.1
+  simp only [sameScheme, List.all_eq_true, decide_eq_true_eq] at this
+  exact h (this a ha b hb)
+
+/-- a client key/certificate pair `tls.X509KeyPair` refuses -/
+theorem c16_rejects_unusable_client_keypair (env : Env) (known : List Known) (c : Cluster)
+    (hk : c.clientConfig.keyData ≠ []) (hc : c.clientConfig.certData ≠ [])
+    (h : env.x509KeyPair c.clientConfig.certData c.clientConfig.keyData = false) : validate env known c ≠ .ok [] := by
+  intro hv
+  have := (classes_of_accepted env known c hv).2.2.1
+  simp [clientTLSOK, hk, hc, h] at this
+
+/-- a client CA bundle `ParseCertsPEM` refuses -/
+theorem c16_rejects_unusable_client_ca (env : Env) (known : List Known) (c : Cluster)
+    (hc : c.clientConfig.caData ≠ []) (h : env.parseCertsPEM c.clientConfig.caData = false) :
+    validate env known c ≠ .ok [] := by
+  intro hv
+  have := (classes_of_accepted env known c hv).2.2.1
+  simp [clientTLSOK, hc, h] at this
+
+/-- https with `insecure` and a CA (client-go refuses to build the transport) -/
+theorem c16_rejects_insecure_with_ca (env : Env) (known : List Known) (c : Cluster)
+    (hs : schemeOf c.servers = sHttps) (hi : c.clientConfig.insecure = true) (hc : c.clientConfig.caData ≠ []) :
+    validate env known c ≠ .ok [] := by
+  intro hv
+  have := (classes_of_accepted env known c hv).2.2.1
+  simp [clientTLSOK, hs, hi, hc] at this
+
+/-- https with half a client key pair -/
+theorem c16_rejects_half_client_keypair (env : Env) (known : List Known) (c : Cluster)
+    (hs : schemeOf c.servers = sHttps) (h : (c.clientConfig.keyData = []) ≠ (c.clientConfig.certData = [])) :
+    validate env known c ≠ .ok [] := by
+  intro hv
+  have := (classes_of_accepted env known c hv).2.2.1
+  by_cases hk : c.clientConfig.keyData = [] <;> by_cases hc : c.clientConfig.certData = [] <;>
+    simp [clientTLSOK, hs, hk, hc] at this h
+
+/-- a serving key/certificate pair or client CA the parsers refuse -/
+theorem c16_rejects_unusable_serving_keypair (env : Env) (known : List Known) (c : Cluster)
+    (hk : c.secureServing.keyData ≠ []) (hc : c.secureServing.certData ≠ [])
+    (h : env.x509KeyPair c.secureServing.certData c.secureServing.keyData = false) : validate env known c ≠ .ok [] := by
+  intro hv
+  have := (classes_of_accepted env known c hv).2.2.2.1
+  simp [servingOK, hk, hc, h] at this
+
+theorem c16_rejects_unusable_serving_ca (env : Env) (known : List Known) (c : Cluster)
+    (hc : c.secureServing.clientCAData ≠ []) (h : env.parseCertsPEM c.secureServing.clientCAData = false) :
+    validate env known c ≠ .ok [] := by
+  intro hv
+  have := (classes_of_accepted env known c hv).2.2.2.1
+  simp [servingOK, hc, h] at this
+
+/-- a policy whose subset names an endpoint that is not a server of the cluster -/
+theorem c16_rejects_unknown_subset_endpoint (env : Env) (known : List Known) (c : Cluster) (p : Policy) (u : Str)
+    (hp : p ∈ c.policies) (hu : u ∈ p.upstreamSubset) (h : u ∉ c.servers.map (·.endpoint)) :
+    validate env known c ≠ .ok [] := by
+  intro hv
+  have := (classes_of_accepted env known c hv).2.2.2.2.2.2 p hp
+  simp only [policyRefsOK, Bool.and_eq_true, List.all_eq_true, List.contains_iff_mem] at this
+  exact h (this.1 u hu)
+
+/-- a policy that names a flow-control schema the cluster does not define -/
+theorem c16_rejects_unknown_schema_name (env : Env) (known : List Known) (c : Cluster) (p : Policy)
+    (hp : p ∈ c.policies) (hn : p.flowControlSchemaName ≠ []) (h : p.flowControlSchemaName ∉ c.schemas.map (·.name)) :
+    validate env known c ≠ .ok [] := by
+  intro hv
+  have := (classes_of_accepted env known c hv).2.2.2.2.2.2 p hp
+  simp only [policyRefsOK, Bool.and_eq_true, Bool.or_eq_true, decide_eq_true_eq, List.contains_iff_mem] at this
+  rcases this.2 with h1 | h1
+  · exact hn h1
+  · exact h h1
+
+/-- a flow-control schema that is not one of the five complete, consistent, in-range shapes -/
+theorem c16_rejects_bad_flow_control (env : Env) (known : List Known) (c : Cluster) (s : Schema)
+    (hs : s ∈ c.schemas) (h : schemaOK s = false) : validate env known c ≠ .ok [] := by
+  intro hv
+  have := (classes_of_accepted env known c hv).2.2.2.2.1 s hs
+  simp [h] at this
+
+/-- the shapes `schemaOK` refuses: more than one configuration -/
+theorem schemaOK_two_configurations (s : Schema)
+    (h : (s.exempt = true ∧ (s.maxRequestsInflight.isSome ∨ s.tokenBucket.isSome)) ∨
+         (s.maxRequestsInflight.isSome ∧ s.tokenBucket.isSome)) : schemaOK s = false := by
+  obtain ⟨name, strategy, exempt, m, tb, gm, gtb⟩ := s
+  cases exempt <;> cases m <;> cases tb <;> cases gm <;> cases gtb <;> simp [schemaOK, shapeOf] at h ⊢
+
+/-- no configuration at all -/
+theorem schemaOK_no_configuration (s : Schema)
+    (h : s.exempt = false ∧ s.maxRequestsInflight = none ∧ s.tokenBucket = none) : schemaOK s = false := by
+  obtain ⟨name, strategy, exempt, m, tb, gm, gtb⟩ := s
+  cases exempt <;> cases m <;> cases tb <;> cases gm <;> cases gtb <;> simp [schemaOK, shapeOf] at h ⊢
+
+/-- a global limit without the local one of the same kind (the shape that makes `NewFlowControl` dereference nil) -/
+theorem schemaOK_global_without_local (s : Schema)
+    (h : (s.globalMaxRequestsInflight.isSome ∧ s.maxRequestsInflight = none) ∨
+         (s.globalTokenBucket.isSome ∧ s.tokenBucket = none)) : schemaOK s = false := by
+  obtain ⟨name, strategy, exempt, m, tb, gm, gtb⟩ := s
+  cases exempt <;> cases m <;> cases tb <;> cases gm <;> cases gtb <;> simp [schemaOK, shapeOf] at h ⊢
+
+/-- a global limit below the local one -/
+theorem schemaOK_global_below_local (s : Schema)
+    (h : (∃ m g, s.maxRequestsInflight = some m ∧ s.globalMaxRequestsInflight = some g ∧ g < m) ∨
+         (∃ t g, s.tokenBucket = some t ∧ s.globalTokenBucket = some g ∧ (g.qps < t.qps ∨ g.burst < t.burst))) :
+    schemaOK s = false := by
+  obtain ⟨name, strategy, exempt, m, tb, gm, gtb⟩ := s
+  cases exempt <;> cases m <;> cases tb <;> cases gm <;> cases gtb <;>
+    simp [schemaOK, shapeOf, Shape.inRange] at h ⊢ <;> omega
+
+/-- numbers outside the range the consumers need: negative `max`, `qps ≤ 0`, `burst < qps` -/
+theorem schemaOK_out_of_range (s : Schema)
+    (h : (∃ m, s.maxRequestsInflight = some m ∧ m < 0) ∨ (∃ g, s.globalMaxRequestsInflight = some g ∧ g < 0) ∨
+         (∃ t, s.tokenBucket = some t ∧ (t.qps ≤ 0 ∨ t.burst < t.qps)) ∨
+         (∃ g, s.globalTokenBucket = some g ∧ g.qps ≤ 0)) : schemaOK s = false := by
+  obtain ⟨name, strategy, exempt, m, tb, gm, gtb⟩ := s
+  cases exempt <;> cases m <;> cases tb <;> cases gm <;> cases gtb <;>
+    simp [schemaOK, shapeOf, Shape.inRange] at h ⊢ <;> omega
+
+/-- two schemas with one name, or a schema without name -/
+theorem c16_rejects_bad_schema_names (env : Env) (known : List Known) (c : Cluster) (h : namesOK c.schemas = false) :
+    validate env known c ≠ .ok [] := by
+  intro hv
+  have := (classes_of_accepted env known c hv).2.2.2.2.2.1
+  simp [h] at this
+
+/-! ## Sufficiency: what is accepted can be applied -/
+
+/-- the gateway creates the cluster: `CreateClusterInfo` (`buildClusterRESTConfig`, TLS configuration, first `Sync`:
+    feature gates, limiters, serving certificates, one transport and client set per endpoint) neither fails nor
+    panics, in local and in remote mode -/
+theorem c16_sufficient_create (env : Env) (henv : EnvOK env) (known : List Known) (c : Cluster)
+    (h : validate env known c = .ok []) (remote : Bool) : ∃ ci, createClusterInfo env remote c = .ok ci := by
+  obtain ⟨ci, hci, _⟩ := createClusterInfo_ok env henv known c ((c16_accepts_iff_valid env known c).mp h) remote
+  exact ⟨ci, hci⟩
+
+/-- ... and conversely: an object on which `CreateClusterInfo` fails or panics is rejected -/
+theorem c16_breaking_object_rejected (env : Env) (henv : EnvOK env) (known : List Known) (c : Cluster) (remote : Bool)
+    (e : Err) (h : createClusterInfo env remote c = .error e) : validate env known c ≠ .ok [] := by
+  intro hv
+  obtain ⟨ci, hci⟩ := c16_sufficient_create env henv known c hv remote
+  rw [h] at hci
+  cases hci
+
+/-- a `ClusterInfo` the gateway may hold: client-go accepts its rest configuration (true of every one created
+    from an accepted object, kept by every `Sync`) -/
+def Applicable (env : Env) (ci : ClusterInfo) : Prop := tlsConfigFor env ci.restTLS = .ok ()
+
+/-- applying accepted objects one after the other (create, then any number of updates) never fails: `Sync` of an
+    accepted object succeeds from EVERY applicable state, whatever objects were applied before -/
+theorem c16_sufficient_update (env : Env) (henv : EnvOK env) (known : List Known) (c : Cluster)
+    (h : validate env known c = .ok []) (ci : ClusterInfo) (hci : Applicable env ci) :
+    ∃ ci', ci.sync env c = .ok ci' ∧ Applicable env ci' := by
+  obtain ⟨ci', h1, h2, _⟩ := sync_ok env henv known c ((c16_accepts_iff_valid env known c).mp h) ci hci
+  exact ⟨ci', h1, by unfold Applicable; rw [h2]; exact hci⟩
+
+theorem c16_created_applicable (env : Env) (henv : EnvOK env) (known : List Known) (c : Cluster)
+    (h : validate env known c = .ok []) (remote : Bool) :
+    ∃ ci, createClusterInfo env remote c = .ok ci ∧ Applicable env ci := by
+  obtain ⟨ci, hci, ht, _⟩ := createClusterInfo_ok env henv known c ((c16_accepts_iff_valid env known c).mp h) remote
+  exact ⟨ci, hci, ht⟩
+
+/-- every history: a cluster created from an accepted object and then synced with any list of accepted objects -/
+theorem c16_sufficient_history (env : Env) (henv : EnvOK env) (known : List Known) (cs : List Cluster)
+    (h : ∀ c ∈ cs, validate env known c = .ok []) (ci : ClusterInfo) (hci : Applicable env ci) :
+    ∃ ci', foldM' (fun (st : ClusterInfo) c => st.sync env c) ci cs = .ok ci' ∧ Applicable env ci' :=
+  foldM'_ok _ (Applicable env) cs
+    (fun st hst c hc => c16_sufficient_update env henv known c (h c hc) st hst) ci hci
+
+/-- the controller's queue handler bootstraps an accepted object: no panic, no requeue (`Err.err`), provided the
+    manager only holds names of clusters the lister (against which the object was validated) knows -/
+theorem c16_sufficient_controller (env : Env) (henv : EnvOK env) (known : List Known) (c : Cluster)
+    (h : validate env known c = .ok []) (remote : Bool) (m : Manager) (hm : ManagerReflects env known c m)
+    (hnew : alGet m (env.lower c.name) = none) : ∃ m', syncUpstreamCluster env remote m c = .ok m' :=
+  syncUpstreamCluster_ok env henv known c ((c16_accepts_iff_valid env known c).mp h) remote m hm hnew
+
+/-- the limiter server's handler applies every object (accepted or not) from every state without failing;
+    its upstream condition then carries exactly the global members of the schemas -/
+theorem c16_sufficient_limiter_handler (u : Upstream) (c : Cluster) : ∃ u', upstreamConditionHandler u c = .ok u' :=
+  let ⟨u', h, _⟩ := upstreamConditionHandler_ok u c
+  ⟨u', h⟩
+
+/-! ## Non-vacuity -/
+
+/-- "https://h" -/
+def exEndpoint : Str := sHttpsPrefix ++ [104]
+
+/-- parsers that accept exactly one endpoint, one key pair and one CA bundle -/
+def exEnv : Env :=
+  { urlParse := fun s => if s = exEndpoint then some ⟨sHttps, [104]⟩ else none,
+    x509KeyPair := fun c k => c = [1] && k = [2],
+    parseCertsPEM := fun d => d = [3],
+    featureGateSet := fun v => if v = [4] then some true else none,
+    restHostOK := fun s => s = exEndpoint,
+    lower := id,
+    popFirst := true }
+
+def exSchemas : List Schema :=
+  [ ⟨[97], sGlobalCountLimit, false, some 10, none, some 100, none⟩,      -- a: max 10, global 100, globalCount
+    ⟨[98], sGlobalCountLimit, false, some 5, none, none, none⟩,          -- b: globalCount without a global limit
+    ⟨[99], sGlobalAllocateLimit, false, none, some ⟨5, 8⟩, none, some ⟨50, 80⟩⟩,
+    ⟨[100], [], true, none, none, none, none⟩ ]
+
+def exCluster : Cluster :=
+  { name := [99, 49], metaErrs := [], annotations := some [(sFeatureGateKey, [4])],
+    servers := [⟨exEndpoint, none⟩],
+    clientConfig := ⟨false, [], [2], [1], [3], 5, 10, 0⟩,
+    secureServing := ⟨[2], [1], [3], [[120]]⟩,
+    schemas := exSchemas, loggingMode := [],
+    policies := [⟨sRoundRobin, [exEndpoint], 1, [97], []⟩] }
+
+example : EnvOK exEnv := by
+  refine ⟨?_, ?_, fun _ => rfl⟩
+  · intro s u h hs
+    simp only [exEnv] at h
+    split at h
+    · rename_i he; cases h; subst he; decide
+    · cases h
+  · intro s u h _ _
+    simp only [exEnv] at h ⊢
+    split at h
+    · rename_i he; simp [he]
+    · cases h
+
+private theorem exEndpoint_scheme : getURLScheme exEndpoint = sHttps := by decide
+
+example : valid exEnv [⟨[111], [[121]]⟩] exCluster = true := by
+  simp [valid, usable, classes, exCluster, exSchemas, exEnv, endpointOK, sameScheme, schemeOf, exEndpoint_scheme,
+    clientTLSOK, servingOK, schemaOK, shapeOf, Shape.inRange, namesOK, policyRefsOK, clientLimitsOK, formOK, strategyOK,
+    logModeOK, featureGateOK, mapGet, noConflict]
+  decide
+
+/-- the hypotheses of the sufficiency theorems hold together for this object (it is accepted, the parsers are
+    well-behaved, the empty manager reflects every lister): they are not vacuous -/
+example : validate exEnv [⟨[111], [[121]]⟩] exCluster = .ok [] ∧ ManagerReflects exEnv [⟨[111], [[121]]⟩] exCluster [] ∧
+    Applicable exEnv (newEmptyClusterInfo exEnv exCluster.name none false) := by
+  refine ⟨(c16_accepts_iff_valid _ _ _).mpr ?_, ?_, rfl⟩
+  · simp [valid, usable, classes, exCluster, exSchemas, exEnv, endpointOK, sameScheme, schemeOf, exEndpoint_scheme,
+      clientTLSOK, servingOK, schemaOK, shapeOf, Shape.inRange, namesOK, policyRefsOK, clientLimitsOK, formOK, strategyOK,
+      logModeOK, featureGateOK, mapGet, noConflict]
+    decide
+  · intro k ci h; simp [alGet] at h
 
 end KG.Props.C16
